@@ -10,11 +10,20 @@ import Corerad.Basic
 
 namespace Corerad.Model.Sysctl
 
-/-- `sysctlBool`: `some b` or `none` for an error -/
+/-- the content of a sysctl file as a code: 0 = "0\n", 1 = "1\n" (the kernel's rendering of 0 and
+    1), 2 = not an integer, 3 = another non-zero integer ("2\n": the kernel keeps whatever integer
+    is written to `forwarding` and forwards for every non-zero value), 4 = another rendering of
+    zero. -/
+def isInt (c : Nat) : Bool := c != 2
+def nonZero (c : Nat) : Bool := c == 1 || c == 3
+
+/-- `sysctlBool`: `some b` or `none` for an error. The value is an integer and enabled means
+    non-zero (finding F-29: the pinned tree compared with "1\n", so `forwarding = 2` read as
+    "not forwarding"); a content that is not an integer is an error. -/
 def readBool (content : Option Nat) : Option Bool :=
   match content with
   | none => none
-  | some c => some (c == 1)
+  | some c => if isInt c then some (nonZero c) else none
 
 /-- what `sysctlEnable` writes: code 1 = "1", 0 = "0" -/
 def writeCode (enable : Bool) : Nat := if enable then 1 else 0
